@@ -435,6 +435,15 @@ def _matrix_constraint(
     return constraints
 
 
+def _matrix_entries(
+    matrix: "MatrixVariable | MatrixExpression",
+) -> list[Expression]:
+    """All entries of a matrix in row-major order (shared entries repeated)."""
+    if isinstance(matrix, MatrixExpression):
+        return matrix.flatten()
+    return [v for row in matrix._variables for v in row]
+
+
 class MatrixSum(Expression):
     """Sum of all elements in a matrix: sum(X) = X[0,0] + X[0,1] + ... + X[n-1,m-1].
 
